@@ -1,24 +1,28 @@
 #!/bin/sh
 # Build the verification framework from files on disk only (offline): translator, regenerated Lean
-# definitions, every Lean module (model, driver executable, theorems), and a first harness build.
+# definitions, the model driver executable, the theorem modules of every claimed property, and a first
+# harness build. A theorem module that fails to build does not fail the setup: the property's own
+# check reports it.
 set -e
 cd "$(dirname "$0")"
 export GOFLAGS=-mod=mod GOPROXY=off GOSUMDB=off GOTOOLCHAIN=local CGO_ENABLED=0
 mkdir -p work evidence lean/ApdVerif/Gen
 cp /repo/go.sum harness/go.sum
 (cd harness && go build -o ../work/xlate ./cmd/xlate)
-./work/xlate -repo /repo -out lean/ApdVerif/Gen
+./work/xlate -repo /repo -out lean/ApdVerif/Gen || echo "setup: translator reported unsupported constructs"
 (cd harness && go build -tags verif -o ../work/harness_setup .)
+(cd lean && lake build driver)
 mods=$(python3 - <<'P'
-import sys
+import sys, json
 sys.path.insert(0,'tools')
 import props
+claimed=[c['property_id'] for c in json.load(open('MANIFEST.json'))['checks']]
 ms=[]
-for p in props.PROPS.values():
-    for m in p.get('lean_modules',[]):
+for pid in claimed:
+    for m in props.PROPS.get(pid,{}).get('lean_modules',[]):
         if m not in ms: ms.append(m)
 print(' '.join(ms))
 P
 )
-(cd lean && lake build driver $mods)
+(cd lean && lake build $mods) || echo "setup: some theorem modules did not build; the checks will report them"
 echo setup-ok
